@@ -489,6 +489,24 @@ fn vp_native_settings_flow_body() {
         assert_eq!(vals(&p1, "accept-encoding"), if compress { vec!["gzip, deflate".to_string()] } else { vec![] });
         assert_eq!(vals(&p1, "connection"), ["close"]);
     } } } }
+    // header values are octets: a value the caller gave for a field the library would otherwise fill in itself (User-Agent, Accept)
+    // holds whatever bytes it contains (obs-text, UTF-8), wherever it was set; the default appears only where nothing was given
+    {
+        let values: [&[u8]; 5] = [b"plain/1.0", "M\u{fc}ller-Crawler/1.0".as_bytes(), b"caf\xe9-client/2.0", b"\xff", b"a b\tc"];
+        for name in ["User-Agent", "Accept", "X-A"] { for sv in 0..=values.len() { for rv in 0..=values.len() { for via_append in [false, true] {
+            let mut sess = crate::Session::new(); sess.proxy_settings(crate::ProxySettings::builder().build());
+            let hv = |b: &[u8]| http::HeaderValue::from_bytes(b).unwrap();
+            if sv < values.len() { if via_append { sess.header_append(name, hv(values[sv])); } else { sess.header(name, hv(values[sv])); } }
+            let mut rb = sess.get("http://h.test/");
+            if rv < values.len() { rb = rb.header(name, hv(values[rv])); }
+            let p = rb.prepare();
+            let got: Vec<Vec<u8>> = p.headers().get_all(name).iter().map(|v| v.as_bytes().to_vec()).collect();
+            let want: Vec<Vec<u8>> = if rv < values.len() { vec![values[rv].to_vec()] } else if sv < values.len() { vec![values[sv].to_vec()] } else { vec![] };
+            cases += 1; crate::verif_native_watchdog::progress();
+            if want.is_empty() { match name { "X-A" => assert!(got.is_empty()), "Accept" => assert_eq!(got, vec![b"*/*".to_vec()]), _ => assert_eq!(got.len(), 1, "one default User-Agent") } }
+            else { assert!(got == want, "{} set to {:?} on the session and {:?} on the request (append: {}) is sent as {:?}", name, values.get(sv).map(|v| String::from_utf8_lossy(v).to_string()), values.get(rv).map(|v| String::from_utf8_lossy(v).to_string()), via_append, got.iter().map(|v| String::from_utf8_lossy(v).to_string()).collect::<Vec<_>>()); }
+        } } } }
+    }
     println!("VP-NATIVE settings_flow cases={}", cases);
 }
 
